@@ -464,7 +464,8 @@ def _init_htpasswd_context():
     # apache can verify anything supported by the native crypt(),
     # though htpasswd tool can only generate a limited set of hashes.
     # (this list may overlap w/ builtin apache schemes)
-    schemes.extend(registry.get_supported_os_crypt_schemes())
+    # NOTE: inserted ahead of "plaintext", which identifies any string and so has to stay last.
+    schemes[-1:-1] = registry.get_supported_os_crypt_schemes()
 
     # hack to remove dups and sort into preferred order
     preferred = schemes[:3] + ["apr_md5_crypt"] + schemes
